@@ -119,39 +119,32 @@ def isoformat(dt: datetime.date | datetime.time | datetime.timedelta) -> str:
 def _isoformat_duration(dt: datetime.timedelta) -> str:
     # Not memoized either: a `pendulum.Duration` of one month and `timedelta(days=30)`
     # compare (and hash) equal but render as "P1MT" and "P30DT".
-    dur: pendulum.Duration = (
-        dt
-        if isinstance(dt, pendulum.Duration)
-        else pendulum.duration(
-            days=dt.days,
-            seconds=dt.seconds,
-            microseconds=dt.microseconds,
-        )
-    )
+    years, months = getattr(dt, "years", 0), getattr(dt, "months", 0)
+    # Exact integer arithmetic on the stdlib fields: float seconds lose microseconds
+    #   beyond 2**33 seconds, and ISO-8601 has one sign for the whole duration.
+    total = (dt.days * 86_400 + dt.seconds) * 1_000_000 + dt.microseconds
+    if years or months:
+        # Calendar units only exist on pendulum durations, which count them in `days`.
+        total -= (years * 365 + months * 30) * 86_400 * 1_000_000
+    sign = "-" if total < 0 or years < 0 or months < 0 else ""
+    total, years, months = abs(total), abs(years), abs(months)
+    days, rest = divmod(total, 86_400 * 1_000_000)
+    hours, rest = divmod(rest, 3_600 * 1_000_000)
+    minutes, rest = divmod(rest, 60 * 1_000_000)
+    seconds, microseconds = divmod(rest, 1_000_000)
     datepart = "".join(
-        f"{p}{s}"
-        for p, s in (
-            (dur.years, "Y"),
-            (dur.months, "M"),
-            (dur.weeks * 7 + dur.remaining_days, "D"),
-        )
-        if p
+        f"{p}{s}" for p, s in ((years, "Y"), (months, "M"), (days, "D")) if p
     )
     timepart = "".join(
         f"{p}{s}"
         for p, s in (
-            (dur.hours, "H"),
-            (dur.minutes, "M"),
-            (
-                f"{dur.remaining_seconds}.{dur.microseconds:06}"
-                if dur.microseconds
-                else dur.remaining_seconds,
-                "S",
-            ),
+            (hours, "H"),
+            (minutes, "M"),
+            (f"{seconds}.{microseconds:06}" if microseconds else seconds, "S"),
         )
         if p
     )
-    period = f"P{datepart}T{timepart}"
+    period = f"{sign}P{datepart}T{timepart}"
     return period
 
 
